@@ -301,8 +301,12 @@ func (d DB) put(c context.Context, op string, t vocab.Type, mustExist, mustNotEx
 	return nil
 }
 
-func (d DB) Create(c context.Context, t vocab.Type) error { return d.put(c, "DB.Create", t, false, true) }
-func (d DB) Update(c context.Context, t vocab.Type) error { return d.put(c, "DB.Update", t, true, false) }
+func (d DB) Create(c context.Context, t vocab.Type) error {
+	return d.put(c, "DB.Create", t, false, true)
+}
+func (d DB) Update(c context.Context, t vocab.Type) error {
+	return d.put(c, "DB.Update", t, true, false)
+}
 
 func (d DB) Delete(c context.Context, id *url.URL) error {
 	a := d.A
